@@ -120,6 +120,7 @@ impl Op {
         match self.name {
             "in" | "inb" | "iny" | "altp2" | "inlf" => 1,
             "ams" | "inmany" | "inbmany" | "inymany" => self.args[0].n() as usize,
+            "vassign" => self.args[2].n() as usize,
             _ => 0,
         }
     }
@@ -176,6 +177,8 @@ pub struct Cfg {
 pub struct Outcome {
     /// (type, region index, offset, column key, value)
     pub vars: Vec<(String, usize, usize, String, Option<F>)>,
+    /// value (`InnerValue::value`) of every vector of the program, by first variable index
+    pub vec_values: Vec<(usize, (usize, usize), Option<Vec<F>>)>,
     pub completed: bool,
 }
 
@@ -229,9 +232,11 @@ impl Circuit<F> for ProgCircuit {
         let decomp = P2RDecompositionChip::<F>::new(&dconf, &config.max_bit_len);
         let g: NG = NativeGadget::new(decomp.clone(), native_chip.clone());
         let mut vars: Vec<Var> = vec![];
+        let mut vecs: crate::vecops::Vecs = Default::default();
+        let vg = midnight_circuits::vec::vector_gadget::VectorGadget::new(&g);
         let mut inputs = self.inputs.iter().copied();
         for o in &self.ops {
-            exec(o, &g, &native_chip, &decomp, &mut vars, &mut inputs, &mut layouter)?;
+            exec(o, &g, &native_chip, &decomp, &vg, &mut vars, &mut vecs, &mut inputs, &mut layouter)?;
         }
         decomp.load(&mut layouter)?;
         let mut out = Outcome::default();
@@ -247,6 +252,9 @@ impl Circuit<F> for ProgCircuit {
             n.value().map(|x| val = Some(*x));
             out.vars.push((v.ty(), *cell.region_index, cell.row_offset, key, val));
         }
+        let mut vv: Vec<_> = vecs.iter().map(|(i, v)| (*i, v.shape(), v.value())).collect();
+        vv.sort_by_key(|x| x.0);
+        out.vec_values = vv;
         out.completed = true;
         *self.outcome.borrow_mut() = out;
         Ok(())
@@ -291,11 +299,16 @@ pub fn exec(
     g: &NG,
     nc: &NativeChip<F>,
     dc: &P2RDecompositionChip<F>,
+    vg: &midnight_circuits::vec::vector_gadget::VectorGadget<F>,
     vars: &mut Vec<Var>,
+    vecs: &mut crate::vecops::Vecs,
     inputs: &mut impl Iterator<Item = F>,
     l: &mut impl Layouter<F>,
 ) -> Result<(), Error> {
     let a = &o.args;
+    if crate::vecops::exec_vec(o.name, a, vg, vars, vecs, inputs, l)? {
+        return Ok(());
+    }
     let mut next_in = || Value::known(inputs.next().expect("not enough inputs"));
     match o.name {
         // ---- assignments
